@@ -15,8 +15,11 @@ import (
 	"go/parser"
 	"go/token"
 	"go/types"
+	"io"
 	"os"
+	"os/exec"
 	"path/filepath"
+	"runtime"
 	"sort"
 	"strings"
 )
@@ -24,37 +27,61 @@ import (
 type failure struct{ msg string }
 
 type translator struct {
-	fset  *token.FileSet
-	info  *types.Info
-	pkg   *types.Package
-	decls map[string]*ast.FuncDecl // "Recv.Name" or ".Name"
-	files map[string]string        // decl key -> file base name
-	tgt   map[string]*target       // decl key -> target
-	funcs map[*types.Func]*target
-	pan   map[*target]bool
-	cur   *target
-	order []*target
+	fset *token.FileSet
+	imp  types.Importer
+	pkgs map[string]*pkgInfo // by directory relative to the repo root ("" = root package)
+	// the package of the function being translated:
+	info    *types.Info
+	pkg     *types.Package
+	decls   map[string]*ast.FuncDecl // "Recv.Name" or ".Name"
+	files   map[string]string        // decl key -> file base name
+	funcs   map[string]*target       // (*types.Func).FullName() -> target
+	pan     map[*target]bool
+	hasLoop map[*target]bool
+	cur     *target
+	order   []*target
 }
 
+type pkgInfo struct {
+	dir   string
+	info  *types.Info
+	pkg   *types.Package
+	decls map[string]*ast.FuncDecl
+	files map[string]string
+}
+
+var rootPath string // import path of the repository's root package
+
+func (tr *translator) use(p *pkgInfo) {
+	tr.info, tr.pkg, tr.decls, tr.files = p.info, p.pkg, p.decls, p.files
+}
+
+func (tr *translator) useTarget(t *target) { tr.cur = t; tr.use(tr.pkgs[t.Pkg]) }
+
 func key(recv, name string) string { return recv + "." + name }
+
+// exprKey: printed expressions are compared modulo spaces
+func exprKey(s string) string { return strings.ReplaceAll(s, " ", "") }
 
 func main() {
 	repo := flag.String("repo", "../repo", "path of the Go repository (package in its root)")
 	out := flag.String("out", "coq/Gen/GoArith.v", "generated Coq file")
 	sigs := flag.String("sigs", "coq/Gen/GoArith.sigs", "generated signature table (for the validation harness)")
+	out2 := flag.String("out2", "coq/Gen/GoArith2.v", "generated Coq file of the second group")
+	sigs2 := flag.String("sigs2", "coq/Gen/GoArith2.sigs", "signature table of the second group")
 	flag.Parse()
-	code := run(*repo, *out, *sigs)
+	code := run(*repo, []string{*out, *out2}, []string{*sigs, *sigs2})
 	os.Exit(code)
 }
 
-func run(repo, out, sigs string) (code int) {
+func run(repo string, outs, sigss []string) (code int) {
 	tr := &translator{}
 	defer func() {
 		if e := recover(); e != nil {
 			if f, ok := e.(failure); ok {
 				name := "(setup)"
 				if tr.cur != nil {
-					name = tr.cur.File + ":" + key(tr.cur.Recv, tr.cur.Name)
+					name = filepath.Join(tr.cur.Pkg, tr.cur.File) + ":" + key(tr.cur.Recv, tr.cur.Name)
 				}
 				fmt.Fprintf(os.Stderr, "gotrans: FAIL function %s: %s\n", name, f.msg)
 				code = 1
@@ -68,8 +95,14 @@ func run(repo, out, sigs string) (code int) {
 		fail("%v", err)
 	}
 	tr.load(abs)
-	vtext, stext := tr.generate(abs)
-	for _, w := range []struct{ path, text string }{{out, vtext}, {sigs, stext}} {
+	tr.computePanics()
+	type outFile struct{ path, text string }
+	var files []outFile
+	for g := range outs {
+		vtext, stext := tr.generate(abs, g)
+		files = append(files, outFile{outs[g], vtext}, outFile{sigss[g], stext})
+	}
+	for _, w := range files {
 		old, err := os.ReadFile(w.path)
 		if err == nil && string(old) == w.text {
 			fmt.Printf("gotrans: %s unchanged\n", w.path)
@@ -95,20 +128,18 @@ func (tr *translator) failAt(n ast.Node, format string, a ...interface{}) {
 
 // ---------------------------------------------------------------- loading
 
-func (tr *translator) load(repo string) {
-	build.Default.Dir = repo // the source importer runs `go list` there (module mode)
-	bp, err := build.Default.ImportDir(repo, 0)
+func (tr *translator) loadPkg(repo, dir string) *pkgInfo {
+	full := filepath.Join(repo, dir)
+	bp, err := build.Default.ImportDir(full, 0)
 	if err != nil {
-		fail("cannot list package in %s: %v", repo, err)
+		fail("cannot list package in %s: %v", full, err)
 	}
-	tr.fset = token.NewFileSet()
+	p := &pkgInfo{dir: dir, decls: map[string]*ast.FuncDecl{}, files: map[string]string{}}
 	var files []*ast.File
-	tr.decls = map[string]*ast.FuncDecl{}
-	tr.files = map[string]string{}
 	names := append([]string(nil), bp.GoFiles...)
 	sort.Strings(names)
 	for _, n := range names {
-		f, err := parser.ParseFile(tr.fset, filepath.Join(repo, n), nil, parser.ParseComments)
+		f, err := parser.ParseFile(tr.fset, filepath.Join(full, n), nil, parser.ParseComments)
 		if err != nil {
 			fail("parse %s: %v", n, err)
 		}
@@ -128,30 +159,103 @@ func (tr *translator) load(repo string) {
 					recv = id.Name
 				}
 			}
-			tr.decls[key(recv, fd.Name.Name)] = fd
-			tr.files[key(recv, fd.Name.Name)] = n
+			p.decls[key(recv, fd.Name.Name)] = fd
+			p.files[key(recv, fd.Name.Name)] = n
 		}
 	}
-	tr.info = &types.Info{
+	p.info = &types.Info{
 		Types:      map[ast.Expr]types.TypeAndValue{},
 		Defs:       map[*ast.Ident]types.Object{},
 		Uses:       map[*ast.Ident]types.Object{},
 		Selections: map[*ast.SelectorExpr]*types.Selection{},
 	}
-	conf := types.Config{Importer: importer.ForCompiler(tr.fset, "source", nil),
+	conf := types.Config{Importer: tr.imp,
 		Sizes: &types.StdSizes{WordSize: 8, MaxAlign: 8}}
-	pkg, err := conf.Check(bp.ImportPath, tr.fset, files, tr.info)
-	if err != nil {
-		fail("type check of %s failed: %v", repo, err)
+	path := rootPath
+	if dir != "" {
+		path = rootPath + "/" + filepath.ToSlash(dir)
 	}
-	tr.pkg = pkg
+	if bp.Name == "main" {
+		path = "main"
+	}
+	p.pkg, err = conf.Check(path, tr.fset, files, p.info)
+	if err != nil {
+		fail("type check of %s failed: %v", full, err)
+	}
+	return p
+}
+
+// exportImporter resolves imports through the compiler's export data: one `go list -export -deps`
+// over the target packages (compiles what is not in the build cache) instead of type-checking
+// every dependency from source.
+func (tr *translator) exportImporter(repo string, dirs []string) types.Importer {
+	goCmd := os.Getenv("VERIF_GO")
+	if goCmd == "" {
+		goCmd = filepath.Join(runtime.GOROOT(), "bin", "go")
+	}
+	args := []string{"list", "-export", "-deps", "-f", "{{.ImportPath}}\t{{.Export}}"}
+	for _, d := range dirs {
+		args = append(args, "./"+filepath.ToSlash(d))
+	}
+	cmd := exec.Command(goCmd, args...)
+	cmd.Dir = repo
+	cmd.Stderr = os.Stderr
+	out, err := cmd.Output()
+	if err != nil {
+		fail("go list -export failed: %v", err)
+	}
+	exports := map[string]string{}
+	for _, line := range strings.Split(string(out), "\n") {
+		if f := strings.Split(line, "\t"); len(f) == 2 && f[1] != "" {
+			exports[f[0]] = f[1]
+		}
+	}
+	return importer.ForCompiler(tr.fset, "gc", func(path string) (io.ReadCloser, error) {
+		f, ok := exports[path]
+		if !ok {
+			return nil, fmt.Errorf("no export data for %s", path)
+		}
+		return os.Open(f)
+	})
+}
+
+func (tr *translator) load(repo string) {
+	build.Default.Dir = repo
+	bp, err := build.Default.ImportDir(repo, 0)
+	if err != nil {
+		fail("cannot list package in %s: %v", repo, err)
+	}
+	rootPath = bp.ImportPath
+	if gm, err := os.ReadFile(filepath.Join(repo, "go.mod")); err == nil {
+		for _, line := range strings.Split(string(gm), "\n") {
+			if f := strings.Fields(line); len(f) == 2 && f[0] == "module" {
+				rootPath = f[1]
+			}
+		}
+	}
+	tr.fset = token.NewFileSet()
+	tr.pkgs = map[string]*pkgInfo{}
+	dirs := []string{"."}
+	seenDir := map[string]bool{"": true}
+	for i := range targets {
+		if !seenDir[targets[i].Pkg] {
+			seenDir[targets[i].Pkg] = true
+			dirs = append(dirs, targets[i].Pkg)
+		}
+	}
+	tr.imp = tr.exportImporter(repo, dirs)
+	tr.pkgs[""] = tr.loadPkg(repo, "")
+	for i := range targets {
+		if _, ok := tr.pkgs[targets[i].Pkg]; !ok {
+			tr.pkgs[targets[i].Pkg] = tr.loadPkg(repo, targets[i].Pkg)
+		}
+	}
 	// bind targets
-	tr.tgt = map[string]*target{}
-	tr.funcs = map[*types.Func]*target{}
+	tr.funcs = map[string]*target{}
 	seenCoq := map[string]bool{}
 	for i := range targets {
 		t := &targets[i]
-		tr.cur = t
+		tr.useTarget(t)
 		k := key(t.Recv, t.Name)
 		fd := tr.decls[k]
 		if fd == nil {
@@ -167,14 +271,15 @@ func (tr *translator) load(repo string) {
 			fail("duplicate Coq name %s", t.Coq)
 		}
 		seenCoq[t.Coq] = true
-		tr.tgt[k] = t
 		obj, _ := tr.info.Defs[fd.Name].(*types.Func)
 		if obj == nil {
 			fail("no type information")
 		}
-		tr.funcs[obj] = t
+		tr.funcs[obj.FullName()] = t
 	}
 	tr.cur = nil
+	tr.use(tr.pkgs[""])
+	pkg := tr.pkg
 	// check the struct mappings
 	for name, sm := range structs {
 		obj := pkg.Scope().Lookup(name)
@@ -200,6 +305,16 @@ func (tr *translator) load(repo string) {
 }
 
 func (tr *translator) lookupType(name string) types.Type {
+	if i := strings.IndexByte(name, '.'); i >= 0 {
+		for _, imp := range tr.pkg.Imports() {
+			if imp.Name() == name[:i] {
+				if tn, ok := imp.Scope().Lookup(name[i+1:]).(*types.TypeName); ok {
+					return tn.Type()
+				}
+			}
+		}
+		fail("unknown type %s", name)
+	}
 	if o := tr.pkg.Scope().Lookup(name); o != nil {
 		if tn, ok := o.(*types.TypeName); ok {
 			return tn.Type()
@@ -255,6 +370,13 @@ func intType(t types.Type) (ity, bool) {
 	return ity{}, false
 }
 
+var errorType = types.Universe.Lookup("error").Type()
+
+func isError(t types.Type) bool { return t != nil && types.Identical(t, errorType) }
+
+// error constructors: the value is only observed as "non-nil"
+var errorCtors = map[string]bool{"errorf": true, "errors.New": true, "fmt.Errorf": true, "errors.Errorf": true, "fmt.Errorf ": true}
+
 func isBool(t types.Type) bool {
 	b, ok := t.Underlying().(*types.Basic)
 	return ok && b.Info()&types.IsBoolean != 0
@@ -268,7 +390,7 @@ func structName(t types.Type) (string, bool) {
 	if _, ok := t.Underlying().(*types.Struct); !ok {
 		return "", false
 	}
-	if n.Obj().Pkg() == nil {
+	if n.Obj().Pkg() == nil || n.Obj().Pkg().Path() != rootPath {
 		return "", false
 	}
 	if _, ok := structs[n.Obj().Name()]; !ok {
@@ -298,6 +420,9 @@ func (tr *translator) valType(n ast.Node, t types.Type) (coq string, sig string)
 	if isBool(t) {
 		return "bool", "bool"
 	}
+	if isError(t) {
+		return "bool", "err" // true = a non-nil error
+	}
 	if s, ok := structName(t); ok {
 		return s, "struct:" + s
 	}
@@ -309,7 +434,7 @@ func (tr *translator) zero(n ast.Node, t types.Type) string {
 	if _, ok := intType(t); ok {
 		return "0"
 	}
-	if isBool(t) {
+	if isBool(t) || isError(t) {
 		return "false"
 	}
 	if s, ok := structName(t); ok {
@@ -333,9 +458,21 @@ type fn struct {
 	panics  bool
 	pending []bind
 	abs     map[string]absParam
-	recv    types.Object // dropped receiver (must not be referenced), or nil
+	dropped map[types.Object]bool // dropped receiver/parameters: only usable inside the configured abstractions
+	params  map[types.Object]bool // the function's own parameters
 	results *types.Tuple
 	nfresh  int
+	loops   bool // the function contains a for loop: extra parameter fuel, result in loopres
+	nloops  int
+	pre     []string // auxiliary definitions (loop Fixpoints) emitted before the function
+	fuel    string
+}
+
+func (fx *fn) panicTerm() string {
+	if fx.loops {
+		return "Done None"
+	}
+	return "None"
 }
 
 type absParam struct {
@@ -349,7 +486,7 @@ func init() {
 	for _, w := range strings.Fields(`as at cofix else end exists exists2 fix for forall fun if IF in let match mod
 		return then using where with Prop Set Type SProp by Definition Lemma Theorem Proof Qed
 		Z bool nat list option Some None true false negb andb orb tt pair fst snd xorb
-		mkOS DataSize PointerCount ObjectSize eqb id`) {
+		mkOS DataSize PointerCount ObjectSize eqb id fuel Done OutOfFuel loopres go_index_bytes`) {
 		reserved[w] = true
 	}
 }
@@ -393,7 +530,7 @@ func (fx *fn) fresh() string {
 func (fx *fn) flush(from int, body string) string {
 	for i := len(fx.pending) - 1; i >= from; i-- {
 		b := fx.pending[i]
-		body = fmt.Sprintf("match %s with None => None | Some %s =>\n%s\nend", b.term, b.name, body)
+		body = fmt.Sprintf("match %s with None => %s | Some %s =>\n%s\nend", b.term, fx.panicTerm(), b.name, body)
 	}
 	fx.pending = fx.pending[:from]
 	return body
@@ -425,15 +562,16 @@ func constTerm(v constant.Value) (string, bool) {
 func (fx *fn) expr(e ast.Expr) string {
 	tr := fx.tr
 	if fx.abs != nil {
-		if a, ok := fx.abs[types.ExprString(e)]; ok {
+		if a, ok := fx.abs[exprKey(types.ExprString(e))]; ok {
 			if et := tr.info.TypeOf(e); !types.Identical(et, a.typ) && !(isBool(a.typ) && et == types.Typ[types.UntypedBool]) {
 				tr.failAt(e, "abstracted expression %s has type %s, configured %s", types.ExprString(e), tr.info.TypeOf(e), a.typ)
 			}
 			// every variable mentioned by the abstracted expression must be the receiver
 			ast.Inspect(e, func(n ast.Node) bool {
 				if id, ok := n.(*ast.Ident); ok {
-					if v, ok := tr.info.Uses[id].(*types.Var); ok && !v.IsField() && v != fx.recv {
-						tr.failAt(id, "abstracted expression %s mentions %s, which is not the receiver", types.ExprString(e), id.Name)
+					if v, ok := tr.info.Uses[id].(*types.Var); ok && !v.IsField() && !fx.dropped[v] && !fx.params[v] &&
+						!(v.Parent() != nil && v.Parent().Parent() == types.Universe) { // package-level variables are allowed
+						tr.failAt(id, "abstracted expression %s mentions %s, which is neither dropped nor a parameter", types.ExprString(e), id.Name)
 					}
 				}
 				return true
@@ -455,17 +593,37 @@ func (fx *fn) expr(e ast.Expr) string {
 		}
 		tr.failAt(e, "unsupported constant %s of type %s", tv.Value, tv.Type)
 	}
+	if ok && tv.IsNil() {
+		// only meaningful as the nil error; any other use fails at the consumer
+		return "false"
+	}
 	switch e := e.(type) {
 	case *ast.ParenExpr:
 		return fx.expr(e.X)
+	case *ast.IndexExpr:
+		// indexing a constant string: panics when out of range
+		xv := tr.info.Types[e.X]
+		if xv.Value == nil || xv.Value.Kind() != constant.String {
+			tr.failAt(e, "index expression on something that is not a constant string")
+		}
+		fx.intTypeOf(e.Index)
+		str := constant.StringVal(xv.Value)
+		elems := make([]string, len(str))
+		for i := 0; i < len(str); i++ {
+			elems[i] = fmt.Sprint(str[i])
+		}
+		idx := fx.expr(e.Index)
+		n := fx.fresh()
+		fx.pending = append(fx.pending, bind{n, "(go_index_bytes [" + strings.Join(elems, "; ") + "] " + idx + ")"})
+		return n
 	case *ast.Ident:
 		obj := tr.info.Uses[e]
 		v, ok := obj.(*types.Var)
 		if !ok || v.IsField() {
 			tr.failAt(e, "unsupported identifier %s", e.Name)
 		}
-		if v == fx.recv {
-			tr.failAt(e, "use of the receiver %s outside the configured abstractions", e.Name)
+		if fx.dropped[v] {
+			tr.failAt(e, "use of the dropped receiver/parameter %s outside the configured abstractions", e.Name)
 		}
 		if v.Parent() == tr.pkg.Scope() || v.Pkg() != tr.pkg {
 			tr.failAt(e, "package-level variable %s", e.Name)
@@ -554,7 +712,7 @@ func (fx *fn) intTypeOf(e ast.Expr) ity {
 
 func (fx *fn) constOf(e ast.Expr) constant.Value {
 	if fx.abs != nil {
-		if _, ok := fx.abs[types.ExprString(e)]; ok {
+		if _, ok := fx.abs[exprKey(types.ExprString(e))]; ok {
 			return nil
 		}
 	}
@@ -566,6 +724,25 @@ func (fx *fn) constOf(e ast.Expr) constant.Value {
 
 func (fx *fn) binary(e *ast.BinaryExpr) string {
 	tr := fx.tr
+	switch e.Op {
+	case token.EQL, token.NEQ:
+		tx, ty := tr.info.TypeOf(e.X), tr.info.TypeOf(e.Y)
+		if isError(tx) || isError(ty) {
+			var v string
+			switch {
+			case tr.info.Types[e.Y].IsNil():
+				v = fx.expr(e.X)
+			case tr.info.Types[e.X].IsNil():
+				v = fx.expr(e.Y)
+			default:
+				tr.failAt(e, "comparison of two error values")
+			}
+			if e.Op == token.NEQ {
+				return v
+			}
+			return "(negb " + v + ")"
+		}
+	}
 	switch e.Op {
 	case token.LAND, token.LOR:
 		x := fx.expr(e.X)
@@ -604,46 +781,61 @@ func (fx *fn) binary(e *ast.BinaryExpr) string {
 			return "(Bool.eqb " + x + " " + y + ")"
 		}
 		tr.failAt(e, "comparison of unsupported types %s, %s", tx, ty)
+	}
+	return fx.arith(e, e.Op, tr.info.TypeOf(e), e.X, e.Y)
+}
+
+// arith translates x op y of result type rt (also used for x op= y).
+func (fx *fn) arith(e ast.Node, eop token.Token, rt types.Type, eX, eY ast.Expr) string {
+	tr := fx.tr
+	resT := func() ity {
+		t, ok := intType(rt)
+		if !ok {
+			tr.failAt(e, "operation %s on non-integer type %s", eop, rt)
+		}
+		return t
+	}
+	switch eop {
 	case token.SHL, token.SHR:
-		t := fx.intTypeOf(e)
-		x := fx.expr(e.X)
+		t := resT()
+		x := fx.expr(eX)
 		var s string
-		if c := fx.constOf(e.Y); c != nil {
+		if c := fx.constOf(eY); c != nil {
 			n, ok := constant.Int64Val(constant.ToInt(c))
 			if !ok || n < 0 || n > 4096 {
-				tr.failAt(e.Y, "unsupported shift count %s", c)
+				tr.failAt(eY, "unsupported shift count %s", c)
 			}
-			if e.Op == token.SHR {
+			if eop == token.SHR {
 				return fmt.Sprintf("(Z.shiftr %s %d)", x, n)
 			}
 			p := constant.Shift(constant.MakeInt64(1), token.SHL, uint(n))
 			return wrap(t, "("+x+" * "+p.ExactString()+")")
 		}
-		st, ok := intType(tr.info.TypeOf(e.Y))
+		st, ok := intType(tr.info.TypeOf(eY))
 		if !ok || st.signed {
-			tr.failAt(e.Y, "non-constant shift count of signed or non-integer type %s (panics when negative)", tr.info.TypeOf(e.Y))
+			tr.failAt(eY, "non-constant shift count of signed or non-integer type %s (panics when negative)", tr.info.TypeOf(eY))
 		}
-		s = fx.expr(e.Y)
-		if e.Op == token.SHR {
+		s = fx.expr(eY)
+		if eop == token.SHR {
 			return "(Z.shiftr " + x + " " + s + ")"
 		}
 		return wrap(t, "("+x+" * 2 ^ "+s+")")
 	case token.ADD, token.SUB, token.MUL:
-		t := fx.intTypeOf(e)
-		fx.intTypeOf(e.X)
-		fx.intTypeOf(e.Y)
-		return wrap(t, "("+fx.expr(e.X)+" "+e.Op.String()+" "+fx.expr(e.Y)+")")
+		t := resT()
+		fx.intTypeOf(eX)
+		fx.intTypeOf(eY)
+		return wrap(t, "("+fx.expr(eX)+" "+eop.String()+" "+fx.expr(eY)+")")
 	case token.QUO, token.REM:
-		t := fx.intTypeOf(e)
-		c := fx.constOf(e.Y)
+		t := resT()
+		c := fx.constOf(eY)
 		if c == nil {
-			tr.failAt(e.Y, "divisor is not a constant (division by zero panics)")
+			tr.failAt(eY, "divisor is not a constant (division by zero panics)")
 		}
 		if constant.Sign(c) == 0 {
-			tr.failAt(e.Y, "constant zero divisor")
+			tr.failAt(eY, "constant zero divisor")
 		}
-		x, y := fx.expr(e.X), fx.expr(e.Y)
-		if e.Op == token.REM {
+		x, y := fx.expr(eX), fx.expr(eY)
+		if eop == token.REM {
 			return "(Z.rem " + x + " " + y + ")"
 		}
 		q := "(Z.quot " + x + " " + y + ")"
@@ -652,12 +844,32 @@ func (fx *fn) binary(e *ast.BinaryExpr) string {
 		}
 		return q
 	case token.AND, token.OR, token.XOR, token.AND_NOT:
-		fx.intTypeOf(e)
+		resT()
 		op := map[token.Token]string{token.AND: "Z.land", token.OR: "Z.lor", token.XOR: "Z.lxor", token.AND_NOT: "Z.ldiff"}
-		return "(" + op[e.Op] + " " + fx.expr(e.X) + " " + fx.expr(e.Y) + ")"
+		return "(" + op[eop] + " " + fx.expr(eX) + " " + fx.expr(eY) + ")"
 	}
-	tr.failAt(e, "unsupported binary operator %s", e.Op)
+	tr.failAt(e, "unsupported binary operator %s", eop)
 	return ""
+}
+
+// errorCtor reports whether e calls one of the configured error constructors.
+func (fx *fn) errorCtor(e *ast.CallExpr) (string, bool) {
+	var obj types.Object
+	switch f := e.Fun.(type) {
+	case *ast.Ident:
+		obj = fx.tr.info.Uses[f]
+	case *ast.SelectorExpr:
+		obj = fx.tr.info.Uses[f.Sel]
+	}
+	fn, ok := obj.(*types.Func)
+	if !ok || fn.Pkg() == nil {
+		return "", false
+	}
+	name := fn.Name()
+	if fn.Pkg() != fx.tr.pkg {
+		name = fn.Pkg().Name() + "." + name
+	}
+	return name, errorCtors[name]
 }
 
 // callee resolves the target of a call expression and the receiver expression (or nil).
@@ -666,7 +878,7 @@ func (fx *fn) callee(e *ast.CallExpr) (*target, ast.Expr) {
 	switch f := e.Fun.(type) {
 	case *ast.Ident:
 		if obj, ok := tr.info.Uses[f].(*types.Func); ok {
-			if t := tr.funcs[obj]; t != nil {
+			if t := tr.funcs[obj.FullName()]; t != nil {
 				return t, nil
 			}
 			tr.failAt(e, "call of %s, which is not in the list of translated functions", f.Name)
@@ -675,7 +887,7 @@ func (fx *fn) callee(e *ast.CallExpr) (*target, ast.Expr) {
 		sel := tr.info.Selections[f]
 		if sel != nil && sel.Kind() == types.MethodVal {
 			obj := sel.Obj().(*types.Func)
-			t := tr.funcs[obj]
+			t := tr.funcs[obj.FullName()]
 			if t == nil {
 				tr.failAt(e, "call of method %s, which is not in the list of translated functions", types.ExprString(f))
 			}
@@ -711,7 +923,25 @@ func (fx *fn) call(e *ast.CallExpr) string {
 		}
 		return wrap(dst, x)
 	}
+	if isError(tr.info.TypeOf(e)) {
+		if name, ok := fx.errorCtor(e); ok {
+			for _, a := range e.Args {
+				ast.Inspect(a, func(n ast.Node) bool {
+					if c, ok := n.(*ast.CallExpr); ok {
+						if tv, ok := tr.info.Types[c.Fun]; !ok || !tv.IsType() {
+							tr.failAt(c, "call inside the arguments of the error constructor %s", name)
+						}
+					}
+					return true
+				})
+			}
+			return "true"
+		}
+	}
 	t, recv := fx.callee(e)
+	if tr.hasLoop[t] {
+		tr.failAt(e, "call of %s, which contains a loop (fuel)", t.Name)
+	}
 	if t.Abstract != nil || t.CASLoop {
 		tr.failAt(e, "call of %s, which is translated under abstraction", t.Name)
 	}
@@ -768,8 +998,8 @@ func (fx *fn) lhsName(id *ast.Ident) string {
 	if !ok || v.IsField() || v.Parent() == fx.tr.pkg.Scope() {
 		fx.tr.failAt(id, "assignment to %s, which is not a local variable", id.Name)
 	}
-	if v == fx.recv {
-		fx.tr.failAt(id, "assignment to the abstracted receiver")
+	if fx.dropped[v] {
+		fx.tr.failAt(id, "assignment to a dropped receiver/parameter")
 	}
 	fx.tr.valType(id, v.Type())
 	return fx.name(obj, id.Name)
@@ -795,11 +1025,14 @@ func (fx *fn) block(stmts []ast.Stmt, rest func() string) string {
 			if len(c.Args) != 1 || fx.constOf(c.Args[0]) == nil {
 				tr.failAt(s, "panic with a non-constant argument")
 			}
-			return "None"
+			return fx.panicTerm()
 		}
 		tr.failAt(s, "unsupported expression statement")
 	case *ast.DeclStmt:
 		gd, ok := s.Decl.(*ast.GenDecl)
+		if ok && gd.Tok == token.CONST {
+			return tail() // constants are folded where they are used
+		}
 		if !ok || gd.Tok != token.VAR {
 			tr.failAt(s, "unsupported declaration")
 		}
@@ -827,6 +1060,15 @@ func (fx *fn) block(stmts []ast.Stmt, rest func() string) string {
 		}
 		return fx.flush(base, b.String()+tail())
 	case *ast.AssignStmt:
+		if op, ok := opAssign[s.Tok]; ok {
+			id, isId := s.Lhs[0].(*ast.Ident)
+			if !isId || len(s.Lhs) != 1 || len(s.Rhs) != 1 {
+				tr.failAt(s, "unsupported operator assignment")
+			}
+			v := fx.arith(s, op, tr.info.TypeOf(id), id, s.Rhs[0])
+			n := fx.lhsName(id)
+			return fx.flush(base, fmt.Sprintf("let %s := %s in\n%s", n, v, tail()))
+		}
 		if s.Tok != token.DEFINE && s.Tok != token.ASSIGN {
 			tr.failAt(s, "unsupported assignment operator %s", s.Tok)
 		}
@@ -853,6 +1095,21 @@ func (fx *fn) block(stmts []ast.Stmt, rest func() string) string {
 			return fx.flush(base, fmt.Sprintf("let '(%s) := %s in\n%s", strings.Join(ns, ", "), v, tail()))
 		}
 		tr.failAt(s, "parallel assignment is not supported")
+	case *ast.IncDecStmt:
+		id, isId := s.X.(*ast.Ident)
+		t, isInt := intType(tr.info.TypeOf(s.X))
+		if !isId || !isInt {
+			tr.failAt(s, "unsupported increment/decrement")
+		}
+		op := "+"
+		if s.Tok == token.DEC {
+			op = "-"
+		}
+		v := wrap(t, "("+fx.expr(id)+" "+op+" 1)")
+		n := fx.lhsName(id)
+		return fmt.Sprintf("let %s := %s in\n%s", n, v, tail())
+	case *ast.ForStmt:
+		return fx.forLoop(s, tail)
 	case *ast.IfStmt:
 		if s.Init != nil {
 			s2 := *s
@@ -949,9 +1206,127 @@ func (fx *fn) block(stmts []ast.Stmt, rest func() string) string {
 
 func (fx *fn) some(term string) string {
 	if fx.panics {
-		return "Some " + term
+		term = "Some " + term
+	}
+	if fx.loops {
+		return "Done (" + term + ")"
 	}
 	return term
+}
+
+var opAssign = map[token.Token]token.Token{
+	token.ADD_ASSIGN: token.ADD, token.SUB_ASSIGN: token.SUB, token.MUL_ASSIGN: token.MUL,
+	token.QUO_ASSIGN: token.QUO, token.REM_ASSIGN: token.REM, token.AND_ASSIGN: token.AND,
+	token.OR_ASSIGN: token.OR, token.XOR_ASSIGN: token.XOR, token.SHL_ASSIGN: token.SHL,
+	token.SHR_ASSIGN: token.SHR, token.AND_NOT_ASSIGN: token.AND_NOT,
+}
+
+// forLoop translates `for [init;] cond [; post] { body }` into a fuelled Fixpoint over the
+// variables assigned in the loop (declared before it); running out of fuel is the distinct
+// outcome OutOfFuel of the enclosing function. The body must not return, break, continue,
+// panic or call a function that may panic.
+func (fx *fn) forLoop(s *ast.ForStmt, tail func() string) string {
+	tr := fx.tr
+	if s.Init != nil {
+		s2 := *s
+		s2.Init = nil
+		return fx.block([]ast.Stmt{s.Init, &s2}, tail)
+	}
+	if s.Cond == nil {
+		tr.failAt(s, "for loop without a condition")
+	}
+	body := append([]ast.Stmt(nil), s.Body.List...)
+	if s.Post != nil {
+		body = append(body, s.Post)
+	}
+	var state, free []types.Object
+	seen := map[types.Object]bool{}
+	isState := map[types.Object]bool{}
+	assigned := func(id *ast.Ident) {
+		obj := tr.info.Uses[id]
+		if obj == nil {
+			return // defined inside the loop
+		}
+		if _, known := fx.names[obj]; known && !isState[obj] {
+			isState[obj] = true
+			state = append(state, obj)
+		}
+	}
+	for _, b := range body {
+		ast.Inspect(b, func(n ast.Node) bool {
+			switch n := n.(type) {
+			case *ast.ReturnStmt, *ast.BranchStmt, *ast.GoStmt, *ast.DeferStmt, *ast.RangeStmt, *ast.ForStmt, *ast.LabeledStmt:
+				tr.failAt(n, "unsupported statement inside a for loop")
+			case *ast.ExprStmt:
+				tr.failAt(n, "unsupported statement inside a for loop (panic or call)")
+			case *ast.AssignStmt:
+				for _, l := range n.Lhs {
+					if id, ok := l.(*ast.Ident); ok {
+						assigned(id)
+					}
+				}
+			case *ast.IncDecStmt:
+				if id, ok := n.X.(*ast.Ident); ok {
+					assigned(id)
+				}
+			}
+			return true
+		})
+	}
+	if len(state) == 0 {
+		tr.failAt(s, "for loop that assigns no variable declared outside it")
+	}
+	collect := func(n ast.Node) {
+		ast.Inspect(n, func(n ast.Node) bool {
+			if id, ok := n.(*ast.Ident); ok {
+				if obj := tr.info.Uses[id]; obj != nil {
+					if _, known := fx.names[obj]; known && !isState[obj] && !seen[obj] {
+						seen[obj] = true
+						free = append(free, obj)
+					}
+				}
+			}
+			return true
+		})
+	}
+	collect(s.Cond)
+	for _, b := range body {
+		collect(b)
+	}
+	fx.nloops++
+	name := fmt.Sprintf("%s_loop%d", fx.t.Coq, fx.nloops)
+	var params, args []string
+	for _, o := range append(append([]types.Object(nil), free...), state...) {
+		c, _ := tr.valType(s, o.Type())
+		params = append(params, fmt.Sprintf("(%s : %s)", fx.names[o], c))
+		args = append(args, fx.names[o])
+	}
+	var stNames, stTypes []string
+	for _, o := range state {
+		c, _ := tr.valType(s, o.Type())
+		stNames = append(stNames, fx.names[o])
+		stTypes = append(stTypes, c)
+	}
+	tuple := strings.Join(stNames, ", ")
+	if len(stNames) > 1 {
+		tuple = "(" + tuple + ")"
+	}
+	base := len(fx.pending)
+	cond := fx.expr(s.Cond)
+	rec := func() string { return "(" + name + " " + fx.fuel + "' " + strings.Join(args, " ") + ")" }
+	btxt := fx.block(body, rec)
+	if len(fx.pending) != base {
+		tr.failAt(s, "call that may panic inside a for loop")
+	}
+	def := fmt.Sprintf("Fixpoint %s (%s : nat) %s {struct %s} : option (%s) :=\n%s.\n", name, fx.fuel, strings.Join(params, " "),
+		fx.fuel, strings.Join(stTypes, " * "),
+		indent(fmt.Sprintf("match %s with\n| O => None\n| S %s' =>\nif %s then (\n%s\n) else (\nSome %s\n)\nend", fx.fuel, fx.fuel, cond, btxt, tuple)))
+	fx.pre = append(fx.pre, def)
+	pat := tuple
+	if len(stNames) > 1 {
+		pat = "(" + strings.Join(stNames, ", ") + ")"
+	}
+	return fmt.Sprintf("match (%s %s %s) with None => OutOfFuel | Some %s =>\n%s\nend", name, fx.fuel, strings.Join(args, " "), pat, tail())
 }
 
 func (fx *fn) ret(s *ast.ReturnStmt, base int) string {
@@ -987,12 +1362,20 @@ func (fx *fn) ret(s *ast.ReturnStmt, base int) string {
 
 func (tr *translator) computePanics() {
 	tr.pan = map[*target]bool{}
+	tr.hasLoop = map[*target]bool{}
 	calls := map[*target][]*target{}
 	for i := range targets {
 		t := &targets[i]
+		tr.useTarget(t)
 		fd := tr.decls[key(t.Recv, t.Name)]
 		ast.Inspect(fd.Body, func(n ast.Node) bool {
 			switch n := n.(type) {
+			case *ast.ForStmt:
+				if !t.CASLoop {
+					tr.hasLoop[t] = true
+				}
+			case *ast.IndexExpr:
+				tr.pan[t] = true // index out of range
 			case *ast.ExprStmt:
 				if _, ok := isPanicCall(tr.info, n); ok {
 					tr.pan[t] = true
@@ -1008,7 +1391,11 @@ func (tr *translator) computePanics() {
 					}
 				}
 				if f, ok := obj.(*types.Func); ok {
-					if c := tr.funcs[f]; c != nil {
+					if c := tr.funcs[f.FullName()]; c != nil {
+						if c.Group > t.Group {
+							tr.cur = t
+							fail("calls %s, which is in a later group", c.Name)
+						}
 						calls[t] = append(calls[t], c)
 					}
 				}
@@ -1062,16 +1449,23 @@ type sigInfo struct {
 }
 
 func (tr *translator) translate(t *target) (def string, sig sigInfo) {
-	tr.cur = t
+	tr.useTarget(t)
 	fd := tr.decls[key(t.Recv, t.Name)]
 	obj := tr.info.Defs[fd.Name].(*types.Func)
 	gsig := obj.Type().(*types.Signature)
 	if gsig.Variadic() || gsig.TypeParams() != nil {
 		tr.failAt(fd, "variadic or generic function")
 	}
-	fx := &fn{tr: tr, t: t, decl: fd, names: map[types.Object]string{}, used: map[string]bool{}, panics: tr.pan[t], results: gsig.Results()}
+	fx := &fn{tr: tr, t: t, decl: fd, names: map[types.Object]string{}, used: map[string]bool{}, panics: tr.pan[t], results: gsig.Results(),
+		dropped: map[types.Object]bool{}, params: map[types.Object]bool{}, loops: tr.hasLoop[t]}
 	type param struct{ name, coq string }
 	var params []param
+	if fx.loops {
+		fx.fuel = "fuel"
+		fx.used["fuel"] = true
+		fx.used["fuel'"] = true
+		params = append(params, param{"fuel", "nat"})
+	}
 	addParam := func(n ast.Node, obj types.Object, goName string, ty types.Type) {
 		c, s := tr.valType(n, ty)
 		params = append(params, param{fx.name(obj, goName), c})
@@ -1080,15 +1474,15 @@ func (tr *translator) translate(t *target) (def string, sig sigInfo) {
 	abstracted := t.Abstract != nil || t.CASLoop
 	if gsig.Recv() != nil {
 		if abstracted {
-			fx.recv = gsig.Recv()
+			fx.dropped[gsig.Recv()] = true
 		} else {
 			if _, ok := gsig.Recv().Type().(*types.Pointer); ok {
 				tr.failAt(fd, "pointer receiver")
 			}
 			addParam(fd, gsig.Recv(), gsig.Recv().Name(), gsig.Recv().Type())
 		}
-	} else if abstracted {
-		tr.failAt(fd, "abstraction configured for a plain function")
+	} else if abstracted && len(t.Drop) == 0 {
+		tr.failAt(fd, "abstraction configured for a plain function without dropped parameters")
 	}
 	if t.Abstract != nil {
 		fx.abs = map[string]absParam{}
@@ -1098,13 +1492,13 @@ func (tr *translator) translate(t *target) (def string, sig sigInfo) {
 			n := fx.name(nil, a.Param)
 			params = append(params, param{n, c})
 			if a.NonNeg {
-				if s != "s64" || !strings.HasPrefix(a.Expr, "len(") {
-					tr.failAt(fd, "NonNeg abstraction must be a len(...) of type int")
+				if s != "s64" || !(strings.HasPrefix(a.Expr, "len(") || strings.HasPrefix(a.Expr, "cap(")) {
+					tr.failAt(fd, "NonNeg abstraction must be a len(...) or cap(...) of type int")
 				}
 				s = "len64"
 			}
 			sig.args = append(sig.args, s)
-			fx.abs[a.Expr] = absParam{n, ty}
+			fx.abs[exprKey(a.Expr)] = absParam{n, ty}
 		}
 	}
 	body := fd.Body.List
@@ -1114,9 +1508,23 @@ func (tr *translator) translate(t *target) (def string, sig sigInfo) {
 		body, casCurr, casNew, casRet = tr.casLoop(fd)
 		addParam(casCurr, tr.info.Defs[casCurr], casCurr.Name, tr.info.Defs[casCurr].Type())
 	}
+	ndrop := 0
 	for i := 0; i < gsig.Params().Len(); i++ {
 		p := gsig.Params().At(i)
+		fx.params[p] = true
+		drop := false
+		for _, d := range t.Drop {
+			drop = drop || d == p.Name()
+		}
+		if drop {
+			fx.dropped[p] = true
+			ndrop++
+			continue
+		}
 		addParam(fd, p, p.Name(), p.Type())
+	}
+	if ndrop != len(t.Drop) {
+		tr.failAt(fd, "configured dropped parameters %v not all found", t.Drop)
 	}
 	var resCoq []string
 	if t.CASLoop {
@@ -1142,6 +1550,9 @@ func (tr *translator) translate(t *target) (def string, sig sigInfo) {
 		}
 		resType = "option " + resType
 	}
+	if fx.loops {
+		resType = "loopres (" + resType + ")"
+	}
 	end := func() string {
 		if t.CASLoop {
 			base := len(fx.pending)
@@ -1163,7 +1574,10 @@ func (tr *translator) translate(t *target) (def string, sig sigInfo) {
 	if gsig.Recv() != nil {
 		recv = "(" + gsig.Recv().Name() + " " + types.TypeString(gsig.Recv().Type(), types.RelativeTo(tr.pkg)) + ") "
 	}
-	fmt.Fprintf(&b, "(* %s: func %s%s%s", t.File, recv, fd.Name.Name, strings.TrimPrefix(types.TypeString(gsig, types.RelativeTo(tr.pkg)), "func"))
+	for _, d := range fx.pre {
+		fmt.Fprintf(&b, "(* loop of %s (fuelled; None = out of fuel) *)\n%s\n", t.Coq, d)
+	}
+	fmt.Fprintf(&b, "(* %s: func %s%s%s", filepath.ToSlash(filepath.Join(t.Pkg, t.File)), recv, fd.Name.Name, strings.TrimPrefix(types.TypeString(gsig, types.RelativeTo(tr.pkg)), "func"))
 	if t.Abstract != nil {
 		b.WriteString("\n   abstracted:")
 		for _, a := range t.Abstract {
@@ -1173,13 +1587,10 @@ func (tr *translator) translate(t *target) (def string, sig sigInfo) {
 	if t.CASLoop {
 		b.WriteString("\n   the pure step of the compare-and-swap loop: (value loaded, parameters) -> (value stored, result returned)")
 	}
-	fmt.Fprintf(&b, "\n   signature: %s -> %s%s *)\n", strings.Join(sig.args, " "), strings.Join(sig.res, " "), map[bool]string{true: " (may panic)", false: ""}[fx.panics])
+	fmt.Fprintf(&b, "\n   signature: %s -> %s%s *)\n", strings.Join(sig.args, " "), strings.Join(sig.res, " "), map[bool]string{true: " (may panic)", false: ""}[fx.panics]+map[bool]string{true: " (loops: first parameter fuel, OutOfFuel when exhausted)", false: ""}[fx.loops])
 	fmt.Fprintf(&b, "Definition %s", t.Coq)
 	for _, p := range params {
 		fmt.Fprintf(&b, " (%s : %s)", p.name, p.coq)
-	}
-	if len(params) == 0 {
-		tr.failAt(fd, "function without parameters")
 	}
 	fmt.Fprintf(&b, " : %s :=\n%s.\n", resType, indent(term))
 	return b.String(), sig
@@ -1294,8 +1705,7 @@ func indent(s string) string {
 	return b.String()
 }
 
-func (tr *translator) generate(repo string) (string, string) {
-	tr.computePanics()
+func (tr *translator) generate(repo string, group int) (string, string) {
 	var v, s strings.Builder
 	v.WriteString("(* GENERATED by gotrans from the Go source in ../repo -- DO NOT EDIT.\n")
 	v.WriteString("   Regenerated (write-if-changed) on every run; GoArithAgree.v is re-checked against it.\n")
@@ -1307,9 +1717,10 @@ func (tr *translator) generate(repo string) (string, string) {
 	seen := map[string]bool{}
 	var fnames []string
 	for i := range targets {
-		if !seen[targets[i].File] {
-			seen[targets[i].File] = true
-			fnames = append(fnames, targets[i].File)
+		f := filepath.ToSlash(filepath.Join(targets[i].Pkg, targets[i].File))
+		if targets[i].Group == group && !seen[f] {
+			seen[f] = true
+			fnames = append(fnames, f)
 		}
 	}
 	sort.Strings(fnames)
@@ -1323,7 +1734,12 @@ func (tr *translator) generate(repo string) (string, string) {
 		fmt.Fprintf(&s, "# %s %s\n", h, f)
 	}
 	v.WriteString("*)\n")
-	v.WriteString("From Coq Require Import ZArith Bool.\nFrom CV Require Import Base.GoSem Core.Arith.\nOpen Scope Z_scope.\nOpen Scope bool_scope.\n\n")
+	if group > 0 {
+		v.WriteString("From Coq Require Import ZArith Bool List.\nImport ListNotations.\nFrom CV Require Import Base.GoSem Core.Arith Gen.GoArith.\n")
+	} else {
+		v.WriteString("From Coq Require Import ZArith Bool.\nFrom CV Require Import Base.GoSem Core.Arith.\n")
+	}
+	v.WriteString("Open Scope Z_scope.\nOpen Scope bool_scope.\n\n")
 	var snames []string
 	for n := range structs {
 		snames = append(snames, n)
@@ -1344,7 +1760,7 @@ func (tr *translator) generate(repo string) (string, string) {
 	for _, n := range snames {
 		sm := structs[n]
 		fmt.Fprintf(&s, "struct %s %s", n, sm.Ctor)
-		st := tr.pkg.Scope().Lookup(n).Type().Underlying().(*types.Struct)
+		st := tr.pkgs[""].pkg.Scope().Lookup(n).Type().Underlying().(*types.Struct)
 		for i, f := range sm.Fields {
 			it, _ := intType(st.Field(i).Type())
 			fmt.Fprintf(&s, " %s:%s", f.Name, it)
@@ -1352,6 +1768,9 @@ func (tr *translator) generate(repo string) (string, string) {
 		s.WriteString("\n")
 	}
 	for _, t := range tr.order {
+		if t.Group != group {
+			continue
+		}
 		def, sig := tr.translate(t)
 		v.WriteString(def)
 		v.WriteString("\n")
@@ -1359,7 +1778,10 @@ func (tr *translator) generate(repo string) (string, string) {
 		if tr.pan[t] {
 			p = "panics"
 		}
-		fmt.Fprintf(&s, "%s %s %s %s : %s -> %s : %s\n", t.Coq, t.File, orDash(t.Recv), t.Name, strings.Join(sig.args, " "), strings.Join(sig.res, " "), p)
+		if tr.hasLoop[t] {
+			p += ",fuel"
+		}
+		fmt.Fprintf(&s, "%s %s %s %s : %s -> %s : %s\n", t.Coq, filepath.ToSlash(filepath.Join(t.Pkg, t.File)), orDash(t.Recv), t.Name, strings.Join(sig.args, " "), strings.Join(sig.res, " "), p)
 	}
 	tr.cur = nil
 	return v.String(), s.String()
